@@ -10,6 +10,7 @@ TARGETS = [
     "verde.base.base_classes:BaseBlockCrossValidator.get_n_splits",
     "verde.utils:partition_by_sum",
     "contracts.cv_c11:kfold_test_sets",
+    "contracts.cv_c11:shuffle_test_sets",
     "contracts.cv_c11:kfold_splits",
     "contracts.cv_c11:shuffle_splits",
 ]
